@@ -62,10 +62,12 @@ pub open spec fn adjusted(sum: f32, clip: Option<f32>, adjust: f32) -> f32 {
     proof { float_ax::float_det(); }
 //@end
 
-// (2) the `.filter(..)` closure: the test applied to an Ok value
+// (2) the `.filter(..)` closure: the test applied to an Ok value.  Two spellings of the closure are carved: the
+// repository's `x.as_ref().map_or(D, |v| TEST)` and `matches!(x, Ok(v) if TEST)`; TEST is what is judged here, what
+// happens to an Err item (D resp. `false`: `matches!` is false for everything the pattern does not match) is (4).
 //@extract method bigtools/src/utils/cli/bigwigmerge.rs new "impl MergingValues"
 //@rule R16
-//@presub /\A.*?\.filter\(move \|x\| x\.as_ref\(\)\.map_or\(\w+, \|v\| (.*?)\)\),?\s*\);\s*MergingValues \{.*\Z/ => fn keep_value(v: &Value, threshold: f32) -> bool {\n    \1\n} min=1 count=1
+//@presub /\A.*?\.filter\(move \|x\| (?:x\.as_ref\(\)\.map_or\(\w+, \|v\| (.*?)\)|matches!\(x, Ok\(v\) if (.*?)\))\),?\s*\);\s*MergingValues \{.*\Z/ => fn keep_value(v: &Value, threshold: f32) -> bool {\n    \1\2\n} min=1 count=1
 //@sub /([\w\.]+) > ([\w\.]+)/ => f32_gt(\1, \2) min=0
 //@sub /([\w\.]+) >= ([\w\.]+)/ => f32_ge(\1, \2) min=0
 //@sub /([\w\.]+) < ([\w\.]+)/ => f32_lt(\1, \2) min=0
@@ -107,7 +109,8 @@ pub assume_specification<T, E, U, F: FnOnce(T) -> U> [Result::<T, E>::map_or] (s
         x matches Ok(v) ==> r matches Ok(w) && w.value == adjusted(v.value, clip, adjust),
 //@end
 
-// (4) whole body of the `.filter(move |x| ..)` closure
+// (4) whole body of the `.filter(move |x| ..)` closure, whatever its spelling (`matches!(x, Ok(v) if TEST)` is
+// accepted by Verus with its real meaning: true iff the pattern matches AND the guard holds, so false on Err)
 //@extract method bigtools/src/utils/cli/bigwigmerge.rs new "impl MergingValues"
 //@rule R16
 //@presub /\A.*?\.filter\(move \|x\| (.*?)\),?\s*\);\s*MergingValues \{.*\Z/ => fn keep_item(x: &Result<Value, MergingValuesError>, threshold: f32) -> bool {\n    \1\n} min=1 count=1
